@@ -22,6 +22,7 @@ PROP = {
     "obligations": [
         A("c10_raw_header_total_28", "every byte string of length 0..=28 (all truncations of a header, lf in {4,5} short files)"),
         A("c10_raw_header_total_52", "every byte string of length 0..=52 (includes every minimal accepted file and files with trailing bytes)"),
+        A("c10_raw_header_total_68", "every byte string of length 0..=68 (accepted files of 12..=17 words)", tier="thorough", timeout=1500),
         A("c10_raw_header_largest_lf", "lf = 32767 (131068-byte file, zero body): every value of the other eleven header words", timeout=1500),
         A("c10_valid_lf_all_sizes", "every combination of the eleven non-negative 16-bit sub-file sizes", funcs=["tfm::SubFileSizes::valid_lf"]),
     ],
